@@ -127,7 +127,7 @@ fn gen(seed: u64, tier: Tier) -> Plan14 {
         let class = *rng.pick(&["sumvec", "hist", "multihot"]);
         let big = tier == Tier::Thorough && rng.chance(1, 3);
         let len = 1 + rng.below(if big { 300 } else { 40 }) as u32;
-        let mut inst = Inst { class: class.to_string(), n: 2 + rng.below(3) as u8, proofs: if rng.chance(1, 6) { 2 } else { 1 }, max: N(1), len, chunk: 1, weight: 1, mt: true, named: rng.chance(1, 2) };
+        let mut inst = Inst { class: class.to_string(), n: 2 + rng.below(3) as u8, proofs: if rng.chance(1, 6) { 2 } else { 1 }, max: N(1), len, chunk: 1, weight: 1, mt: true, named: rng.chance(1, 2), xof: String::new() };
         match class {
             "sumvec" => inst.max = N(*rng.pick(&[1u128, 2, 3, 7, 8, 255, 1000])),
             "multihot" => inst.weight = 1 + rng.below(len as u64 + 2) as u32,
